@@ -13,15 +13,16 @@ level's schema visits, **all nodes of the choice lie in one case, or no case of 
 `fxCleanTop`).  The repaired step establishes it (`casesStepFix_fxG`, unless it reports DUPCASE), `lyd_validate_new`'s node loop only removes
 nodes, `lyd_new_implicit` creates inside a choice only in the selected case (`want_sel`, `implL_fxG`), the subtree walk and
 `lyd_validate_final_r` keep schema ids and only turn explicit nodes into default ones — and on siblings without new nodes it makes the
-step a no-op (`casesStepFix_noop`).  Hypothesis added w.r.t. the unrepaired chain: the first validation reports no error
-(`(validate X o t).errs = []` — with DUPCASE reported the step cleans nothing).
+step a no-op (`casesStepFix_noop`).  Hypothesis added w.r.t. the unrepaired chain: the first validation reports no DUPCASE
+(`noDupErr (validate X o t).errs`: no logged error is "data for both cases" — other errors are allowed, the model continues after them;
+with DUPCASE reported the step cleans nothing).
 -/
 namespace LyModel.Props.C07
 open LyModel LyModel.Tree LyModel.Valid
 
 /-- **`validate_idempotent_choice`, repaired `lyd_validate_cases` (F321)** — schemas with `choice` / `case` in any nesting, the repaired
 variants of F180, F188 and F321, every option set, every tree that follows the schema in ANY flag state, whose validation reports no
-error: validating the result again returns the same tree and an empty change set — when no non-presence container is a case member
+DUPCASE error: validating the result again returns the same tree and an empty change set — when no non-presence container is a case member
 (`NoNpContInCase`), **or, for every schema of the class, when the tree satisfies the non-presence container invariant `npInvL`** (kept by the
 edits of a history and by validation: `np_cont_dflt_reachable`).  The second alternative is WEAKER than the one of the unrepaired chain
 (`npInvL ∧ newExplL`): the hypothesis of F189 — no empty non-presence container was just created — is gone, because the repaired step
@@ -30,7 +31,7 @@ finds the existing case on the explicit siblings and an explicit container keeps
 theorem validate_idempotent_choice_fix (X : SchemaX) (o : VOpts) (t : List DNode)
     (hq1 : X.q.implicitInnerCase = false) (hq2 : X.q.autodelDirectCase = false) (hq3 : X.q.casesCountDefault = false)
     (hl : KidsLookupOk X) (hw : CaseWf X) (hnp : NoNpContInCase X ∨ npInvL X.base t)
-    (hp : placedCL X X.top t = true) (hh : sheightL X.top ≤ walkFuel X t) (hv : (validate X o t).errs = []) :
+    (hp : placedCL X X.top t = true) (hh : sheightL X.top ≤ walkFuel X t) (hv : noDupErr (validate X o t).errs) :
     (validate X o (validate X o t).tree).tree = (validate X o t).tree ∧
     (validate X o (validate X o t).tree).evs = [] :=
   validate_idempotent4 X o hq1 hq2 hq3 hl hw t hnp hp hh hv
@@ -72,7 +73,7 @@ theorem validate_normal_form_fix (X : SchemaX) (o : VOpts) (t : List DNode)
     (hq1 : X.q.implicitInnerCase = false) (hq2 : X.q.autodelDirectCase = false) (hq3 : X.q.casesCountDefault = false)
     (hl : KidsLookupOk X) (hw : CaseWf X) (hnp : NoNpContInCase X ∨ npInvL X.base t)
     (hp : placedCL X X.top t = true) (hh : sheightL X.top ≤ walkFuel X t) (hpe : (o.present && t.isEmpty) = false)
-    (hv : (validate X o t).errs = []) :
+    (hv : noDupErr (validate X o t).errs) :
     (StableTop X o (validate X o t).tree ∧ fxCleanTop X (validate X o t).tree) ∧
     (StableTop X o t ∧ fxCleanTop X t → (validate X o t).tree = t ∧ (validate X o t).evs = []) ∧
     ((validate X o t).tree = t ∧ (validate X o t).evs = [] → StableTop X o t ∧ fxCleanTop X t) := by
@@ -88,7 +89,7 @@ validated again without error, gets the empty change set, and applying it to `t'
 theorem valdiff_exact_partial_validated_fix (X : SchemaX) (o : VOpts) (fx : Diff.Fixes) (t : List DNode)
     (hq1 : X.q.implicitInnerCase = false) (hq2 : X.q.autodelDirectCase = false) (hq3 : X.q.casesCountDefault = false)
     (hl : KidsLookupOk X) (hw : CaseWf X) (hnp : NoNpContInCase X ∨ npInvL X.base t)
-    (hp : placedCL X X.top t = true) (hh : sheightL X.top ≤ walkFuel X t) (hv1 : (validate X o t).errs = [])
+    (hp : placedCL X X.top t = true) (hh : sheightL X.top ≤ walkFuel X t) (hv1 : noDupErr (validate X o t).errs)
     (hv : (validate X o (validate X o t).tree).errs = []) :
     validateDiff X o (validate X o t).tree = some [] ∧ valdiffExact X o fx (validate X o t).tree = true := by
   obtain ⟨h1, h2⟩ := validate_idempotent4 X o hq1 hq2 hq3 hl hw t hnp hp hh hv1
